@@ -20,7 +20,7 @@ EXPLANATION = ''
 
 def profiles(thorough):
     ops = ["newG", "connfn", "emit", "tryemit", "disc", "blockC", "blockG", "clear", "size?", "newT", "delT", "connected?"]
-    acc = Profile(allow_only=ops, nT=2, nG=3, nC=8, flavours=["A", "TA", "A", "I", "TI"], specs={"fn": 6, "trk": 2},
+    acc = Profile(allow_only=ops, nT=2, nG=3, nC=8, flavours=["A", "TA", "A", "I", "TI", "AV", "TAV"], specs={"fn": 6, "trk": 2},
                   body_prob=0.25, body_len=(1, 2), len=(12, 40 if not thorough else 100),
                   w={"connfn": 14, "emit": 14, "blockC": 8, "disc": 4, "delT": 2, "blockG": 1},
                   bw={k: 0 for k in ["connfn", "conn", "clear", "delG", "cpG", "asgG", "masgG", "emit", "tryemit", "callS", "delS",
